@@ -12,14 +12,19 @@ go build ./... || { echo "NOT-CONFIRMED: does not build"; exit 1; }
 go vet ./... >/dev/null 2>&1 || echo "note: go vet complains"
 go test -vet=off -count=1 ./... >suite.log 2>&1 || { echo "NOT-CONFIRMED: suite fails with the change"; tail -5 suite.log; exit 1; }
 place() {
+	for sub in "$d"/demo/*/; do
+		[ -d "$sub" ] || continue
+		cp -r "$sub" ./; echo "$(basename "$sub")"
+	done
 	for f in "$d"/demo/*.go; do
+		[ -f "$f" ] || continue
 		pkg=$(sed -n 's/^package \([a-z_]*\).*/\1/p' "$f" | head -1)
 		case "$pkg" in xz|xz_test) dst=.;; lzma|lzma_test) dst=lzma;; main) dst=cmd/gxz;; *) dst=.;; esac
 		cp "$f" "$dst/"; echo "$dst"
 	done | sort -u
 }
 pkgs=$(place)
-names=$(grep -ho '^func Test[A-Za-z0-9_]*' "$d"/demo/*.go | sed 's/func //' | paste -sd'|')
+names=$(grep -rho '^func Test[A-Za-z0-9_]*' "$d"/demo | sed 's/func //' | paste -sd'|')
 rc_with=0
 for p in $pkgs; do go test -vet=off -count=1 -run "^($names)\$" ./$p >demo_with.log 2>&1 || rc_with=1; done
 git apply -R "$d/patch.diff"
